@@ -12,8 +12,13 @@ STEP_RULE = ('step mode: a real Core (+Synchronizer, MempoolDriver/PayloadWaiter
 
 
 def step_run(agree, monitors, quick=160, thorough=3000):
+    def layout(case, v):
+        # the global-chain monitor of C02 presupposes a history within the fault model (no forged signature of the node under test,
+        # one certified chain, consistent high-QC reports): the generator says which cases are
+        mons = [m for m in monitors if case.get('admissible', True) or m != M_C02]
+        return (agree, mons)
     return {'name': 'step', 'bin': 'step', 'mode': 'run', 'emit': 'step', 'quick': quick, 'thorough': thorough,
-            'agree': agree, 'monitors': monitors}
+            'agree': agree, 'monitors': monitors, 'layout': layout}
 
 
 NODE_VO = ['Node.vo', 'Corr.vo', 'Monitors.vo', 'CorrMulti.vo', 'LeaderDefs.vo', 'QuorumDefs.vo', 'CorrComp.vo', 'CorrAgg.vo']
@@ -81,7 +86,7 @@ PROPS = {
     },
     'C05': {
         'vo': NODE_VO,
-        'sites': ['g_two_chain', 'g_commit_skip', 'g_commit_walk', 'g_commit_stop', 'g_quorum_consensus'],
+        'sites': ['g_two_chain', 'g_commit_skip', 'g_commit_walk', 'g_commit_stop', 'g_quorum_consensus', 'g_block_exempt_is_genesis', 'g_qc_weight', 'g_qc_entry_stake'],
         'corr': [step_run([COMMIT, STATE], [M_C05])],
         'rule': STEP_RULE, 'assumptions': STEP_ASSUME,
     },
@@ -169,7 +174,7 @@ PROPS = {
     },
     'C04': {
         'vo': NODE_VO,
-        'sites': ['g_block_stake', 'g_vote_stake', 'g_timeout_stake', 'g_qc_entry_stake', 'g_qc_weight', 'g_tc_entry_stake', 'g_tc_weight', 'g_quorum_consensus', 'g_vote_stale', 'g_timeout_stale', 'g_tc_stale'],
+        'sites': ['g_block_exempt_is_genesis', 'g_timeout_exempt_is_genesis', 'g_block_stake', 'g_vote_stake', 'g_timeout_stake', 'g_qc_entry_stake', 'g_qc_weight', 'g_tc_entry_stake', 'g_tc_weight', 'g_quorum_consensus', 'g_vote_stale', 'g_timeout_stale', 'g_tc_stale'],
         'corr': [step_run([NET, COMMIT, MEM, PROP, RES, STATE], [M_C04])],
         'rule': STEP_RULE, 'assumptions': STEP_ASSUME,
     },
@@ -228,6 +233,8 @@ PROPS['C07'] = {
 
 for _p in ('C01', 'C02', 'C03', 'C04', 'C05', 'C08', 'C09', 'C10', 'C15', 'C19'):
     PROPS[_p]['anchors'] = CORE_ANCHORS
+for _p in ('C02', 'C03', 'C04', 'C05', 'C08', 'C09', 'C10', 'C15', 'C19'):
+    PROPS[_p]['extra_props'] = ['MonSound']     # each monitor evaluated on real traces is proved true on every run of the model
 PROPS['C11']['anchors'] = ['mempool/src/batch_maker.rs', 'mempool/src/processor.rs']
 PROPS['C12']['anchors'] = ['mempool/src/quorum_waiter.rs', 'mempool/src/config.rs']
 PROPS['C14']['anchors'] = ['network/src/reliable_sender.rs', 'network/src/receiver.rs']
